@@ -388,6 +388,11 @@ func fromParamSlice(s ssa.Value, depth int) bool {
 		if _, ok := constInt(x.Len); !ok {
 			for _, r := range rootsOf(x.Len) {
 				if r.Kind == "param" {
+					// sizes read from the receiver's configuration are not caller-chosen lengths
+					fn := r.Param.Parent()
+					if fn.Signature.Recv() != nil && len(fn.Params) > 0 && fn.Params[0] == r.Param {
+						continue
+					}
 					return true
 				}
 			}
